@@ -102,6 +102,8 @@ def generate(mod, run_seed, cfg):
 
 def _worker(args):
     pid, base, k0, k1, cfg, wall_cap = args
+    import warnings
+    warnings.simplefilter("ignore")
     faulthandler.dump_traceback_later(wall_cap, exit=True)
     mod = load(pid)
     agg = {"runs": 0, "nontrivial": 0, "digests": set(), "probes": {}, "faults": {},
@@ -155,6 +157,8 @@ def _same(mod, plan, tape, sig):
 
 
 def shrink(mod, plan, tape, sig, budget_s=25.0, max_exec=1500):
+    import warnings
+    warnings.simplefilter("ignore")
     t0 = time.time()
     n_exec = [0]
 
@@ -253,6 +257,8 @@ def write_replay(pid, run_seed, plan, tape, sig, msg, note=""):
 
 
 def replay(pid, path, quiet=False):
+    import warnings
+    warnings.simplefilter("ignore")
     with open(path) as f:
         rp = json.load(f)
     mod = load(pid)
